@@ -16,9 +16,12 @@ func VerifC09_total() {
 			return "x"
 		}
 		texts := []string{"", "a", "a\nbc", "\n"}
-		switch vfChoice(name+".kind", 3) {
+		switch vfChoice(name+".kind", 4) {
 		case 0:
 			return ""
+		case 3:
+			vfTag("json-unencodable-item")
+			return vfUnencodable{s: texts[vfChoice(name+".s", 4)]}
 		case 1:
 			return texts[1+vfChoice(name+".s", 3)]
 		}
